@@ -6,7 +6,7 @@ params:
   base     "sync" | "pool" (workers) | "manual"
   workers  int
   layers   bottom -> top, each {"t": ...}:
-             {"t":"map", "fn": "tag"|"raise"|None, "efn": "tag"|"raise"|"reraise"|None}
+             {"t":"map", "fn": "tag"|"raise"|"none"|None, "efn": "tag"|"raise"|"reraise"|"none"|None}   ("none": returns None)
              {"t":"flat_map", "fn": "tag"|"raise"|"nonfuture"|"later"|None}      ("later": returns a pending future
                                                     that an env thread resolves 50 ticks later)
              {"t":"retry", "max": n, "sleep": ticks}
@@ -64,6 +64,9 @@ def term_of(v, s):
     if isinstance(v, Future):
         out.append(-7)  # a nested future: never a legal outcome
         return out
+    if v is None:
+        out.append(-5)  # a user function answered None: a value like any other
+        return out
     if isinstance(v, LayerError):
         out.append(-(100 + v.layer))
         return out
@@ -115,6 +118,8 @@ def build(p):
                     raise LayerError(i, kind)
                 if mode == "reraise":
                     raise x
+                if mode == "none":
+                    return None
                 return Tag(i, x, "g" if kind == "fn" else "e")
 
             return fn
@@ -188,8 +193,8 @@ def build(p):
                           "timeout": ly.get("T", 10 ** 6)}.get(t, -1)
             E.emit("Layer", k=i, s=t, a=main_param, b=ly.get("sleep", -1),
                    c=7 if ly.get("policy") else (1 if ly.get("block") else 0),
-                   xs=[{"tag": 1, "raise": 2, "reraise": 3, "nonfuture": 4, "later": 5, None: 0}[ly.get("fn")],
-                       {"tag": 1, "raise": 2, "reraise": 3, "fail_future": 4, None: 0}[ly.get("efn")],
+                   xs=[{"tag": 1, "raise": 2, "reraise": 3, "nonfuture": 4, "later": 5, "none": 6, None: 0}[ly.get("fn")],
+                       {"tag": 1, "raise": 2, "reraise": 3, "fail_future": 4, "none": 6, None: 0}[ly.get("efn")],
                        {"first": 1, "second": 2, "raise1": 3, "never": 4, None: 0}[ly.get("mode")]])
             if t == "map":
                 ex = Executors.with_map(tap, mk_fn(i, ly.get("fn"), "fn"), error_fn=mk_fn(i, ly.get("efn"), "efn"),
